@@ -231,7 +231,7 @@ prop("C14", level="proof",
            "rules) to produce sign ++ decimal digits for EVERY value of every <= 64-bit type; Kani proves the unrewritten code for the 8- "
            "and 16-bit types over their full domain and the type dispatch for one value per type.",
      functions=["DigitCount::digit_count (8 impls)", "NumToRepr::into_repr (10 integer impls)", "ToLeanString::try_to_lean_string (dispatch)"],
-     verus=["v_grow"],
+     verus=["v_grow", "v_num"],
      trust=["Display for integers prints sign ++ decimal digits without leading zeros (documented core behaviour)",
             "i128/u128 go through the itoa crate: assumed (dependency); NonZero wrappers are `.get()`",
             "the four extraction rewrite rules of v_num (raw-pointer writes -> Vec writes)"],
